@@ -982,6 +982,10 @@ func (r *e1Run) describe() string {
 // baseClasses adds the labels every E1 property reports.
 func (r *e1Run) baseClasses() {
 	r.cls.Add("kind:%s", r.c.Kind)
+	if r.s.AutoBlocked > 0 {
+		// a wait without a yield point inside the code under test: the scheduler went on without that task
+		r.cls.Add("task-blocked-inside-library:went-on-without-it")
+	}
 	if r.c.Kind != "sync" {
 		q := r.c.Queue
 		switch {
